@@ -171,11 +171,11 @@ func v1(w *World, r *Report) {
 	}
 	// the credit and debit primitives have closed caller sets
 	w.checkCallers(r, "V-1", fref{pkgCT, "Account", "SubBalance"}, map[string]string{
-		"account.(*AcctCtrler).transfer": "transfer debit", "account.(*ImmuAcctCtrler).Transfer": "transfer debit on a scratch ledger",
+		"account.(*AcctCtrler).transfer": "transfer debit", "account.(*AcctCtrler).Transfer": "transfer debit (the exported entry; V-2 decides that it moves one amount from one account to the other)", "account.(*ImmuAcctCtrler).Transfer": "transfer debit on a scratch ledger",
 		"node.postRunTrx": "fee debit", "stake.(*StakeCtrler).exeStaking": "staking debit",
 	}, 3)
 	w.checkCallers(r, "V-1", fref{pkgCT, "Account", "AddBalance"}, map[string]string{
-		"account.(*AcctCtrler).transfer": "transfer credit / refund", "account.(*ImmuAcctCtrler).Transfer": "transfer credit on a scratch ledger",
+		"account.(*AcctCtrler).transfer": "transfer credit / refund", "account.(*AcctCtrler).Transfer": "transfer credit / refund (the exported entry)", "account.(*ImmuAcctCtrler).Transfer": "transfer credit on a scratch ledger",
 		"account.(*AcctCtrler).Reward": "reward / matured-stake credit", "account.(*ImmuAcctCtrler).Reward": "same on a scratch ledger",
 		"account.(*AcctCtrler).EndBlock": "block fees to the proposer",
 	}, 3)
@@ -228,6 +228,46 @@ func v2(w *World, r *Report) {
 		ok := false
 		for _, c := range w.callsTo(ae, fref{"ctrlers/account", "AcctCtrler", "transfer"}) {
 			ok = w.canonCall(c.Common(), 0) == "recv.transfer(p0.Sender, p0.Receiver, p0.Tx.Amount)"
+		}
+		if !ok {
+			// whatever the helper is called: on ExecuteTrx's paths (helpers expanded, their
+			// parameters bound) every success path that touches a balance debits the
+			// sender and credits the receiver by Tx.Amount, and nothing else
+			ev := func(in ssa.Instruction) string {
+				c, isC := in.(ssa.CallInstruction)
+				if !isC {
+					return ""
+				}
+				switch callName(c.Common()) {
+				case "SubBalance", "AddBalance":
+					return w.canonCall(c.Common(), 0)
+				}
+				return ""
+			}
+			saved := w.branchMarkers
+			w.branchMarkers = false
+			paths, complete := w.enumPaths(ae, func(ssa.Value) (bool, bool) { return false, false }, ev, 400)
+			w.branchMarkers = saved
+			n := 0
+			ok = complete
+			for _, p := range paths {
+				if len(p.Events) == 0 {
+					continue
+				}
+				e := strings.Join(p.Events, ";")
+				switch p.Term {
+				case "ok":
+					n++
+					if e != "p0.Sender.SubBalance(p0.Tx.Amount);p0.Receiver.AddBalance(p0.Tx.Amount)" {
+						ok = false
+					}
+				case "err", "unknown":
+					if e != "p0.Sender.SubBalance(p0.Tx.Amount)" && e != "p0.Sender.SubBalance(p0.Tx.Amount);p0.Receiver.AddBalance(p0.Tx.Amount);p0.Sender.AddBalance(p0.Tx.Amount)" && e != "p0.Sender.SubBalance(p0.Tx.Amount);p0.Receiver.AddBalance(p0.Tx.Amount)" {
+						ok = false
+					}
+				}
+			}
+			ok = ok && n > 0
 		}
 		r.Check(ok, "V-2", "AcctCtrler.ExecuteTrx:transfer-args", "a transfer moves Tx.Amount from the sender to the receiver", "the transfer is not (Sender, Receiver, Tx.Amount)", fnSite(w, ae))
 	}
